@@ -67,6 +67,8 @@ class Trace:
 
 
 class ProbeNode(BaseNode):
+    digest_ts_recv = True  # C10 compares runs whose receive times may differ by one float32 ulp
+
     def __init__(self, *args, nid: int, trace: Trace = None, const: int = 0, **kwargs):
         super().__init__(*args, **kwargs)
         self.nid = nid
@@ -98,7 +100,8 @@ class ProbeNode(BaseNode):
             seqn = jnp.maximum(jnp.asarray(i.seq, dtype=jnp.int32), -1)  # any negative value means "default output"
             d = _mix(d, seqn)
             d = _mix(d, _bits(i.ts_sent))
-            d = _mix(d, _bits(i.ts_recv))
+            if self.digest_ts_recv:
+                d = _mix(d, _bits(i.ts_recv))
             d = _mix(d, i.data.a)
             ins[name] = dict(seq=seqn, ts_sent=jnp.asarray(i.ts_sent, jnp.float32), ts_recv=jnp.asarray(i.ts_recv, jnp.float32), a=i.data.a)
         new_rng, _sub = jax.random.split(ss.rng)
